@@ -62,6 +62,11 @@ pub struct Chain {
     pub requests: BTreeMap<usize, u64>,
     pub sync_calls: BTreeMap<usize, u64>,
     pub record_bytes: bool,
+    /// (client, n, bytes): right before that client's n-th add_version (1-based, since the last
+    /// `reset_requests`) another writer's version with these bytes lands on the chain, so that the
+    /// add is rejected — a race at a chosen point without needing the scheduler
+    pub inject_on_add: Vec<(usize, u64, Vec<u8>)>,
+    pub add_counts: BTreeMap<usize, u64>,
 }
 
 impl Default for Chain {
@@ -79,6 +84,8 @@ impl Default for Chain {
             requests: BTreeMap::new(),
             sync_calls: BTreeMap::new(),
             record_bytes: true,
+            inject_on_add: vec![],
+            add_counts: BTreeMap::new(),
         }
     }
 }
@@ -118,6 +125,7 @@ impl Chain {
     }
     pub fn reset_requests(&mut self) {
         self.requests.clear();
+        self.add_counts.clear();
     }
 }
 
@@ -193,6 +201,18 @@ impl Server for ChainClient {
         }
         let sc = self.sc();
         let mut c = self.chain.0.borrow_mut();
+        let n_add = {
+            let e = c.add_counts.entry(self.id).or_insert(0);
+            *e += 1;
+            *e
+        };
+        if let Some(pos) = c.inject_on_add.iter().position(|(cl, n, _)| *cl == self.id && *n == n_add) {
+            let (_, _, bytes) = c.inject_on_add.remove(pos);
+            let id = version_uuid(c.next_id);
+            c.next_id += 1;
+            let parent = c.latest();
+            c.versions.push(VersionRec { id, parent, bytes, client: 99, sync_call: 0 });
+        }
         let latest = c.latest();
         let res = if !c.versions.is_empty() && parent_version_id != latest {
             let bytes = if c.record_bytes { history_segment.clone() } else { vec![] };
